@@ -203,20 +203,20 @@ def make_handler(tag, calls):
     return handler
 
 
-def register(app, rule, name, handler, style, **kw):
+def register(app, rule, verb, handler, style, **kw):
     if style == "upper":
-        app.route(rule, method=name, callback=handler, **kw)
+        app.route(rule, method=verb, callback=handler, **kw)
     elif style == "lower":
-        app.route(rule, name.lower(), handler, **kw)
+        app.route(rule, verb.lower(), handler, **kw)
     elif style == "mixed":
-        app.route(rule, method=MIXED[name], **kw)(handler)
+        app.route(rule, method=MIXED[verb], **kw)(handler)
     elif style == "list1":
-        app.add_route(rule, [name.lower()], handler, **kw)
-    elif name == "ANY":    # style "shortcut"
+        app.add_route(rule, [verb.lower()], handler, **kw)
+    elif verb == "ANY":    # style "shortcut"
         app.route(rule, "any", handler, **kw)
     else:
         # app.get / app.head / ...: the functools.partial is unpacked here, CrossHair's tracer cannot call partial objects
-        shortcut = getattr(app, name.lower())
+        shortcut = getattr(app, verb.lower())
         shortcut.func(rule, *shortcut.args, callback=handler, **shortcut.keywords, **kw)
 
 
@@ -251,6 +251,23 @@ def under_config(name, fn):
     return q
 
 
+NAMING = [None]
+
+
+def with_naming(naming, fn):
+    """the query `fn` with the routes named (on every registration / on a later one only) and edited through the
+    by-name lookup router[name]"""
+    def q(*a, **kw):
+        NAMING[0] = naming
+        try:
+            return fn(*a, **kw)
+        finally:
+            NAMING[0] = None
+    q.__signature__ = __import__("inspect").signature(fn)
+    q.__annotations__ = dict(fn.__annotations__)
+    return q
+
+
 def build(shape, bitmaps, style, calls):
     """bitmaps[r][i] tells whether UNIVERSE[i] is registered on route r. Returns (app, tables, live); a rule no
     method was registered for does not exist (live[r] is False)."""
@@ -262,7 +279,10 @@ def build(shape, bitmaps, style, calls):
         for i, name in enumerate(UNIVERSE):
             if bitmaps[r][i]:
                 tag = "r%d:%s" % (r, name)
-                register(app, rule, name, make_handler(tag, calls), style)
+                kw = {}
+                if NAMING[0] == "every" or (NAMING[0] == "later" and table):
+                    kw["name"] = "route%d" % r          # the route's name, given on every / on a later registration only
+                register(app, rule, name, make_handler(tag, calls), style, **kw)
                 table[name] = tag
         tables.append(table)
     for spec in shape["hooks"]:
@@ -286,6 +306,8 @@ def edit(app, rule, table, r, i, mode, calls):
         table[name] = tag
     elif name in table:      # removal of a registered method (removing an unregistered one is not the subject)
         route = app.router[{rule}]
+        if NAMING[0] and app.router["route%d" % r] is not None:
+            route = app.router["route%d" % r]           # the same route looked up by its name
         if mode == "remove":
             route.remove_method(name)
         elif mode == "remove-list":      # together with the next method of the universe if that is registered too
@@ -576,6 +598,13 @@ def edit_queries(tier):
                          "route %d of [/a, /<x0>]: every subset registered, then every subset edited by %r (two symbolic "
                          "bitmaps); verb %s; path %s; observed at %s" % (r, mode, verb, ["/a", "/b"][r], level),
                          timeout=400, expect_cover=["200", "405"], family="edit", config={"mode": mode, "verb": verb}))
+    # the same edits through the by-name lookup, the name given on every registration / on a later registration only
+    for naming in ("every", "later"):
+        for mode in (["remove", "handle"] if tier == "quick" else ["remove", "handle", "remove-list", "overwrite"]):
+            out.append(Q("edit-named-%s/%s/one" % (naming, mode), with_naming(naming, make_edit(sh, 0, "/a", verbs, mode, "wsgi", False)),
+                         "as edit/%s/one, route r registered with name='route<r>' on %s, the edit made through router[name]"
+                         % (mode, "every registration" if naming == "every" else "the second and later registrations only"),
+                         timeout=150, expect_cover=["200", "405"], family="edit-named", config={"mode": mode, "naming": naming}))
     return out
 
 
